@@ -361,9 +361,12 @@ func SRem(src S, states ...S) S {
 		return s
 	}
 
-	for i := 1; i < len(states); i++ {
+	for i := 0; i < len(states); i++ {
 		for ii := 0; ii < len(states[i]); ii++ {
-			s = slicesWithout(s, states[i][ii])
+			// all the occurrences
+			s = slicesFilter(s, func(name string, _ int) bool {
+				return name != states[i][ii]
+			})
 		}
 	}
 
